@@ -99,6 +99,22 @@ type SlCustomSet struct {
 	End int32
 }
 
+// NamedMapOfLists: a typed map (M) whose values are containers, followed by pointers that may be shared.
+type NamedMapOfLists map[string][]string
+
+type SlNamedMapL struct {
+	L   []NamedMapOfLists
+	M   NamedMapOfLists
+	P   *Inner
+	Q   *Inner
+	End int32
+}
+
+type MpStrCustom struct {
+	M   map[string]CustomNamed
+	End int32
+}
+
 type Embedded struct {
 	Base
 	X int32
@@ -374,7 +390,7 @@ var Types = []T{
 	{"time", ty(time.Time{}), true},
 	{"Inner", ty(Inner{}), true}, {"*Inner", ty(&Inner{}), true}, {"CustomNamed", ty(CustomNamed{}), true},
 	{"Scalars", ty(Scalars{}), false}, {"Acronyms", ty(Acronyms{}), true}, {"TypeTable", ty(TypeTable{}), true}, {"TimeThenPtrs", ty(TimeThenPtrs{}), true},
-	{"*HeaderFirst", ty(&HeaderFirst{}), true}, {"*Nested", ty(&Nested{}), true}, {"IntLists", ty(IntLists{}), true}, {"SlCustomSet", ty(SlCustomSet{}), true}, {"topCustomSet", ty(CustomSet(nil)), true}, {"Embedded", ty(Embedded{}), true}, {"EmbeddedPtr", ty(EmbeddedPtr{}), true}, {"Nested", ty(Nested{}), true}, {"Ptrs", ty(Ptrs{}), true},
+	{"*HeaderFirst", ty(&HeaderFirst{}), true}, {"*Nested", ty(&Nested{}), true}, {"IntLists", ty(IntLists{}), true}, {"SlNamedMapL", ty(SlNamedMapL{}), true}, {"MpStrCustom", ty(MpStrCustom{}), true}, {"SlCustomSet", ty(SlCustomSet{}), true}, {"topCustomSet", ty(CustomSet(nil)), true}, {"Embedded", ty(Embedded{}), true}, {"EmbeddedPtr", ty(EmbeddedPtr{}), true}, {"Nested", ty(Nested{}), true}, {"Ptrs", ty(Ptrs{}), true},
 	{"SlBool", ty(SlBool{}), true}, {"SlI8", ty(SlI8{}), true}, {"SlI16", ty(SlI16{}), true}, {"SlI32", ty(SlI32{}), true}, {"SlI", ty(SlI{}), true}, {"SlI64", ty(SlI64{}), true},
 	{"SlU16", ty(SlU16{}), true}, {"SlU32", ty(SlU32{}), true}, {"SlU", ty(SlU{}), true}, {"SlU64", ty(SlU64{}), true}, {"SlF32", ty(SlF32{}), true}, {"SlF64", ty(SlF64{}), true},
 	{"SlStr", ty(SlStr{}), true}, {"SlBin", ty(SlBin{}), true}, {"SlTime", ty(SlTime{}), true}, {"SlInner", ty(SlInner{}), true}, {"SlPInner", ty(SlPInner{}), true},
